@@ -160,7 +160,7 @@ def direct_tables(ctx):
 
 def run(ctx: Ctx) -> int:
     q = ctx.quick
-    size, ln = (4, 3) if q else (5, 4)        # (size 6 is several million programs: beyond what the replay can hold in memory)
+    size, ln = (4, 3) if q else (5, 3)        # (size 6, or element lists of 4, run to millions of programs: beyond what the replay can hold)
     r = ctx.tlc("MC_C02", "SPECIFICATION Spec\nCONSTANTS SIZE = %d LEN = %d\n%s" % (size, ln, INV), dump=True,
                 name="all nestings up to size %d, element lists up to %d" % (size, ln))
     states = read_dump(r.dump)
